@@ -110,6 +110,31 @@ func (w *world) liar(kind string, pos int, end elemKind) *peerSpec {
 		}}
 }
 
+// a lossy (or lying) peer: the honest stream with round skip left out, then the stream ends
+func (w *world) skipper(skip uint64) *peerSpec {
+	return &peerSpec{reach: true, kind: fmt.Sprintf("omits(%d)", skip),
+		gen: func(from uint64) []elem {
+			var es []elem
+			for r := from; r <= chainLen; r++ {
+				if r != skip {
+					es = append(es, w.pkt(cp(w.chain[r]), mdSame))
+				}
+			}
+			return append(es, elem{kind: eClose})
+		}}
+}
+
+// honest, except that a stream asked from round bad is closed at once (that stream is lost)
+func (w *world) failsOn(bad uint64) *peerSpec {
+	return &peerSpec{reach: true, kind: fmt.Sprintf("honest-but-stream-from-%d-lost", bad), mayStall: true,
+		gen: func(from uint64) []elem {
+			if from == bad {
+				return []elem{{kind: eClose}}
+			}
+			return w.honestStream(from, chainLen, mdSame)
+		}}
+}
+
 // only one genuine beacon, of round r, whatever was asked
 func (w *world) only(r uint64) *peerSpec {
 	return &peerSpec{reach: true, kind: fmt.Sprintf("only(%d)", r),
@@ -140,7 +165,8 @@ type scase struct {
 	jobs     []job
 	descr    string
 	witness  string
-	nticks   int // ticks: number of periods, one request each
+	nticks   int    // ticks: number of periods, one request each
+	lost     uint64 // checkcorrect: every stream asked from this round is lost
 	// follow only
 	fol *followIn
 }
@@ -156,6 +182,8 @@ func (c *scase) label() string {
 		s += fmt.Sprintf(" from=%d to=%d", c.from, c.to)
 	case "check":
 		s += fmt.Sprintf(" upTo=%d", c.upTo)
+	case "checkcorrect":
+		s += fmt.Sprintf(" check(upTo=%d) then correct what it listed; every stream asked from round %d is lost on all peers", c.upTo, c.lost)
 	}
 	for _, p := range c.plants {
 		s += fmt.Sprintf(" plant(%d,%s)", p.round, p.how)
@@ -303,6 +331,22 @@ func (g *gen) build(tier string) {
 			g.add(&scase{kind: "resync", w: w, bk: bkMem, sk: skAppend, head: hd, from: 4, to: 4,
 				plants:   []plant{{4, "badsig"}},
 				attempts: [][]*peerSpec{{unreachableSpec(), w.cut(0, eClose)}, {w.cut(1, eClose), w.honest()}}, witness: "repair-after-transient-failure"})
+		}
+		// a run of consecutive faulty rounds, a first peer that omits one round of it, an honest second
+		for _, skip := range []uint64{5, 4} {
+			var js []job
+			for rd := uint64(4); rd <= 6; rd++ {
+				js = append(js, job{round: rd, attempts: [2][]*peerSpec{{w.skipper(skip), w.honest()}, {w.honest()}}})
+			}
+			g.add(&scase{kind: "correct", w: w, bk: bkBoltU, sk: skAppend, head: 9,
+				plants: []plant{{4, "badsig"}, {5, "missing"}, {6, "badsig"}}, jobs: js, witness: "repair-run-of-rounds-lossy-peer"})
+		}
+		// check beyond the head, then correct what the check listed, one stream lost on every peer
+		for _, hd := range []uint64{5, 8} {
+			g.add(&scase{kind: "checkcorrect", w: w, bk: bkBoltU, sk: skAppend, head: hd, upTo: hd + 4,
+				plants: []plant{{2, "badsig"}}, lost: hd + 2, witness: "check-beyond-head-then-correct"})
+			g.add(&scase{kind: "checkcorrect", w: w, bk: bkMem, sk: skAppend, head: hd, upTo: hd + 3,
+				plants: []plant{{3, "missing"}}, lost: 3, witness: "check-beyond-head-then-correct"})
 		}
 		// F14: re-sync bypasses the scheme store (observation)
 		g.add(&scase{kind: "resync", w: w, bk: bkBoltU, sk: skAppend, head: 6, from: 3, to: 3,
@@ -460,6 +504,8 @@ func (g *gen) build(tier string) {
 			j := job{round: p.round}
 			if mode == 0 {
 				j.attempts = [2][]*peerSpec{{w.cut(g.rng.Intn(2), eClose), w.honest()}, {w.honest()}}
+			} else if mode == 2 && p.round < chainLen { // a first peer that omits a round near the faulty one
+				j.attempts = [2][]*peerSpec{{w.skipper(p.round + uint64(g.rng.Intn(2))), w.honest()}, {w.honest()}}
 			} else if mode == 1 { // transient: the whole first attempt fails, the retry finds an honest peer
 				j.attempts = [2][]*peerSpec{{g.randPeerNoStall(w), g.randPeerNoStall(w)}, {g.randPeerNoStall(w), w.honest()}}
 			} else {
@@ -472,6 +518,23 @@ func (g *gen) build(tier string) {
 		}
 		c.jobs = jobs
 		g.add(c)
+	}
+	// ---- check then correct, targets at, below and beyond the head ----
+	for i := 0; i < 12*scale; i++ {
+		w := g.worlds[g.rng.Intn(len(g.worlds))]
+		head := uint64(3 + g.rng.Intn(chainLen-6))
+		var pl []plant
+		for r := uint64(1); r < head; r++ {
+			if g.rng.Intn(5) == 0 {
+				pl = append(pl, plant{r, []string{"missing", "badsig"}[g.rng.Intn(2)]})
+			}
+		}
+		upTo := head + uint64(g.rng.Intn(4))
+		if upTo > chainLen {
+			upTo = chainLen
+		}
+		g.add(&scase{kind: "checkcorrect", w: w, bk: g.pickBk(w), sk: skAppend, head: head, upTo: upTo, plants: pl,
+			lost: 1 + uint64(g.rng.Intn(int(upTo))), descr: "random"})
 	}
 	// ---- Run: renewals ----
 	for i := 0; i < 24*scale; i++ {
